@@ -126,6 +126,144 @@ def run(ctx):
             else:
                 ctx.ok(R_hdr, {"scenario": scen, "bytes": sum((t.w or 0) for t in w_ if t.k in ("P", "B")), "layout": wire.strip_names(wire.flat(w_))[:100]})
 
+    # sub-byte planes: bit counts are converted to byte counts by rounding up, identically in sibling parsers
+    R_bits = ctx.rule("C16.bit-planes-round-up", "every byte length computed from `pixels * alpha_bits` rounds up (div_ceil / +7), and the sibling Raw1 parsers use the same expression", floor=2)
+    plane = []
+    for f in blp.fn_list:
+        if not f.hir or "::tests::" in f.path:
+            continue
+        # closures are folded into their parent's HIR
+        if f.kind == "Closure":
+            continue
+        for x in hirq.walk(f.hir["body"]):
+            r_ = None
+            if x.get("k") == "mcall" and x["m"] in ("div_ceil", "div_floor", "checked_div", "wrapping_div") and "alpha_bits" in hirq.render(x["recv"]):
+                r_ = (x["m"] == "div_ceil" and hirq.lit_int(x["args"][0]) == 8, hirq.render(x))
+            elif x.get("k") == "bin" and x["op"] in ("/", ">>") and "alpha_bits" in hirq.render(x["l"]) and hirq.lit_int(x["r"]) in (8, 3):
+                rounds = bool(re.search(r"\+ 7\)", hirq.render(x["l"])))
+                r_ = (rounds, hirq.render(x))
+            if r_ is None:
+                continue
+            ctx.saw_fn(f)
+            plane.append((f, x["ln"], r_[1]))
+            if r_[0]:
+                ctx.ok(R_bits, {"fn": norm(f.path), "line": x["ln"], "expr": r_[1][:80]})
+            else:
+                ctx.bad(R_bits, "%s|truncating-bit-plane" % norm(f.path), "%s:%d" % (f.file, x["ln"]), "`%s` truncates a bit count to bytes" % r_[1][:80],
+                        "when pixels*alpha_bits is not a multiple of 8 (1/4-bit alpha on small or odd-sized levels) the last alpha byte the encoder wrote is not read: the parsed level differs from the encoded one")
+    exprs = {re.sub(r"\b\w*header\b", "H", e) for _, _, e in plane}
+    if len(plane) >= 2 and len(exprs) > 1:
+        ctx.bad(R_bits, "raw1-siblings|plane-length", plane[0][0].where, "sibling parsers compute the alpha plane length differently: %s" % sorted(exprs), "BLP0 and BLP1/2 palettised levels are sized by different rules")
+
+    # codec tags: what image_to_blp writes into (compression, alpha_type) selects, in the parser, the same content variant
+    R_tag = ctx.rule("C16.codec-tags-select-written-content", "for every BLP2 target, parser(compression, alpha_type) of the header image_to_blp builds is the BlpContent variant it stores", floor=4)
+    conv = next((f for f in blp.fn_list if norm(f.path) == "wow_blp::convert::image_to_blp" and f.hir), None)
+    pd = next((f for f in blp.fn_list if f.hir and f.kind != "Closure" and norm(f.path).startswith("wow_blp::parser::direct::")
+               and any((x.get("fn") or "").endswith("Error::Blp2UnknownAlphaType") for x in hirq.calls(f.hir["body"]))), None)
+    if conv is None or pd is None:
+        ctx.bad(R_tag, "codec-tags|missing", "-", "image_to_blp or the BLP2 direct-content dispatcher not found", "anchor gone")
+    else:
+        ctx.saw_fn(conv)
+        ctx.saw_fn(pd)
+        # parser table: (compression variant, alpha_type variant or None=any) -> content variant
+        ptab = []
+        for m in hirq.find(pd.hir["body"], "match"):
+            if hirq.render(m["e"]) != "compression":
+                continue
+            for arm in m["arms"]:
+                pat = arm["pat"]
+                guard = arm.get("guard")
+                if pat.get("k") == "guard":
+                    guard, pat = pat.get("g"), pat.get("sub")
+                comp = (hirq.pat_ctor(pat) or "").split("::")[-1]
+                at = None
+                if guard is not None:
+                    g = hirq.strip(guard)
+                    if g.get("k") == "bin" and g["op"] == "==":
+                        at = hirq.render(g["r"]) if "alpha_type" in hirq.render(g["l"]) else hirq.render(g["l"])
+                    else:
+                        at = "?"
+                res = None
+                for x in hirq.walk(arm["body"]):
+                    if x.get("k") == "call" and re.search(r"BlpContent::(\w+)$", x.get("fn") or ""):
+                        res = x["fn"].split("::")[-1]
+                ptab.append((comp, at, res))
+
+        def parser_of(comp, at):
+            for c_, a_, r_ in ptab:
+                if c_ == comp and (a_ is None or a_ == at):
+                    return r_
+            return None
+        body = conv.hir["body"]
+
+        def possible(n, depth=0):
+            """set of enum-variant names an expression may evaluate to"""
+            n = hirq.strip(n)
+            k = n.get("k")
+            if depth > 6:
+                return {"?"}
+            if k == "path" and "def" in n["res"]:
+                return {n["res"]["def"].split("::")[-1]}
+            if k == "if":
+                out = possible(n["then"], depth + 1)
+                return out | (possible(n["else"], depth + 1) if n.get("else") is not None else {"?"})
+            if k == "block":
+                return possible(n["e"], depth + 1) if n.get("e") else {"?"}
+            if k == "match":
+                out = set()
+                for a in n["arms"]:
+                    out |= possible(a["body"], depth + 1)
+                return out
+            if k == "path" and "local" in n["res"]:
+                nm = n["res"]["local"]
+                out = set()
+                for l in hirq.find(body, "let"):
+                    if l.get("init") is None:
+                        continue
+                    if l["pat"].get("k") == "bind" and l["pat"]["name"] == nm:
+                        out |= possible(l["init"], depth + 1)
+                    elif l["pat"].get("k") == "tuple":
+                        names = [s_.get("name") for s_ in l["pat"]["subs"]]
+                        if nm in names:
+                            i_ = names.index(nm)
+
+                            def tup(e, d):
+                                e = hirq.strip(e)
+                                if e.get("k") == "tup":
+                                    return possible(e["es"][i_], d + 1)
+                                if e.get("k") == "if":
+                                    return tup(e["then"], d + 1) | (tup(e["else"], d + 1) if e.get("else") is not None else {"?"})
+                                if e.get("k") == "block" and e.get("e"):
+                                    return tup(e["e"], d + 1)
+                                return {"?"}
+                            out |= tup(l["init"], depth + 1)
+                return out or {"?"}
+            return {"?"}
+        for lit in hirq.find(body, "struct"):
+            if not lit["res"].get("def", "").endswith("BlpImage"):
+                continue
+            flds = dict((a, b) for a, b in lit["fields"])
+            content = None
+            for x in hirq.walk(flds.get("content")):
+                if x.get("k") == "call" and re.search(r"BlpContent::(\w+)$", x.get("fn") or ""):
+                    content = x["fn"].split("::")[-1]
+            flags = next((x for x in hirq.walk(flds.get("header")) if x.get("k") == "struct" and x["res"].get("def", "").endswith("BlpFlags::Blp2")), None)
+            if flags is None or content is None:
+                continue
+            ff = dict((a, b) for a, b in flags["fields"])
+            comps = possible(ff.get("compression"))
+            ats = possible(ff.get("alpha_type"))
+            if content == "Jpeg":
+                ctx.ok(R_tag, {"content": content, "line": lit["ln"], "note": "JPEG is selected by the content tag, not by these fields"})
+                continue
+            bad = [(c_, a_, parser_of(c_, a_)) for c_ in sorted(comps) for a_ in sorted(ats) if parser_of(c_, a_) != content]
+            if bad:
+                c_, a_, got = bad[0]
+                ctx.bad(R_tag, "image_to_blp|%s|tags" % content, "%s:%d" % (conv.file, lit["ln"]), "stores BlpContent::%s under (compression=%s, alpha_type=%s), which the parser reads as %s" % (content, c_, a_, got),
+                        "the file parses without error as a different content type: structure and pixels differ from what was encoded")
+            else:
+                ctx.ok(R_tag, {"content": content, "compression": sorted(comps), "alpha_type": sorted(ats)})
+
     # dispatch coverage
     content = next((a for a in blp.items["adts"] if a["path"].endswith("::BlpContent") and a["k"] == "enum"), None)
     variants = [v["name"] for v in content["variants"]] if content else []
